@@ -205,8 +205,10 @@ def rule_display(ctx, R):
     nan = "Formatter::write_fmt(P2,Arguments::from_str(K'너무 커엇...'))"
     i = "Formatter::write_fmt(P2,Arguments::new(Kb'\\xc0\\x00',array{Argument::new_display(P1.up)}))"
     fr = "Formatter::write_fmt(P2,Arguments::new(Kb'\\xc0\\x01/\\xc0\\x00',array{Argument::new_display(P1.up),Argument::new_display(P1.down)}))"
-    spec = Alt(Seq("BR[Num::is_nan(P1)]=1", nan, "RET(%s)" % nan), Seq("BR[Num::is_nan(P1)]=0", Alt(Seq(E + "=1", i, "RET(%s)" % i), Seq(E + "=0", fr, "RET(%s)" % fr))))
-    p_c01.check_lang(R, "display:definition", "Display: the fixed NaN text; an integer (denominator equal to one, full comparison) without denominator; otherwise numerator/denominator", d, spec, b.span)
+    nan2 = "Formatter::write_str(P2,K'너무 커엇...')"  # the same text without the formatting machinery (write! without arguments pads nothing either)
+    rest = Seq("BR[Num::is_nan(P1)]=0", Alt(Seq(E + "=1", i, "RET(%s)" % i), Seq(E + "=0", fr, "RET(%s)" % fr)))
+    specs = [Alt(Seq("BR[Num::is_nan(P1)]=1", n_, "RET(%s)" % n_), rest) for n_ in (nan, nan2)]
+    p_c01.check_lang_any(R, "display:definition", "Display: the fixed NaN text; an integer (denominator equal to one, full comparison) without denominator; otherwise numerator/denominator", d, specs, b.span)
     name = "<number::num::Num as core::fmt::Debug>::fmt"
     b, d = fn_lang(fb, name)
     if R.anchor(b is not None, name, "Debug for Num"):
